@@ -53,6 +53,10 @@ func Generate(r *sim.Rng, prop, tier string, idx int) *sim.Case {
 		backendKind = 1
 	}
 	c.Knobs["backend"] = backendKind
+	if backendKind == 1 && prop != "C07" && r.Chance(1, 4) {
+		// commands take a while to reach the server (C07's promptness bound is about a fast network)
+		c.Knobs["net_latency_ns"] = int64(sim.Pick(r, 200*time.Microsecond, 3*time.Millisecond, 40*time.Millisecond))
+	}
 	g := &gen{r: r}
 	switch prop {
 	case "C02":
@@ -328,6 +332,30 @@ func genC06(g *gen, c *sim.Case, tier string) {
 	c.Sched.HorizonNs = int64(5 * time.Hour)
 	keys := []string{"a", "b", "c"}
 	task := sim.Task{Name: "t0"}
+	if L := time.Duration(c.Knobs["net_latency_ns"]); L >= time.Millisecond && r.Chance(1, 2) {
+		// a Create that arrives while the previous record of the key is about to expire, over a
+		// slow network: whatever the backend computed before its first attempt is old news by
+		// the time it retries. The new record must be gone when ITS expiry has passed.
+		d1 := sim.Pick(r, 50*time.Millisecond, 200*time.Millisecond)
+		d2 := sim.Pick(r, 20*time.Millisecond, 100*time.Millisecond)
+		x := time.Duration(r.I64n(int64(3 * L)))
+		task.Ops = append(task.Ops, sim.Op{K: "put", S: "a", V: g.val(), D: int64(d1)})
+		task.Ops = append(task.Ops, sim.Op{K: "jump", D: int64(d1 - L - x)})
+		task.Ops = append(task.Ops, sim.Op{K: "create", S: "a", V: g.val(), D: int64(d2)})
+		task.Ops = append(task.Ops, sim.Op{K: "jump", D: int64(d2) - int64(2*L) + r.I64n(int64(L))})
+		switch r.Intn(5) {
+		case 0:
+			task.Ops = append(task.Ops, sim.Op{K: "getmany", S: "a,b"})
+		case 1:
+			task.Ops = append(task.Ops, sim.Op{K: "list", S: sim.Pick(r, "*", "a")})
+		case 2:
+			task.Ops = append(task.Ops, sim.Op{K: "create", S: "a", V: g.val()})
+		case 3:
+			task.Ops = append(task.Ops, sim.Op{K: "del", S: "a"})
+		default:
+			task.Ops = append(task.Ops, sim.Op{K: "get", S: "a"})
+		}
+	}
 	// write phase
 	nw := 2 + r.Intn(4)
 	for i := 0; i < nw; i++ {
@@ -413,6 +441,32 @@ func genExpWait(g *gen, c *sim.Case) {
 	c.Sched = sched(r, 5*time.Millisecond, 60000)
 	c.Sched.HorizonNs = int64(time.Hour)
 	d := sim.Pick(r, 20*time.Millisecond, 200*time.Millisecond, 2*time.Second)
+	if r.Chance(1, 5) {
+		// "stale tick": waiters give up within a step or two of the expiry instant, so that a
+		// timer may fire without its tick being received; afterwards a fresh record with a far
+		// expiry is written and waited on for a moment. With the timer channels of older Go
+		// releases a left-over tick survives Stop/Reset - whatever the storage recycles
+		// must not make the fresh record "expire"
+		c.Sched.OldTimers = true
+		c.Tasks = append(c.Tasks, sim.Task{Name: "m0", Ops: []sim.Op{{K: "put", S: "a", V: "x1", D: int64(d)}}})
+		nw := 1 + r.Intn(3)
+		for i := 0; i < nw; i++ {
+			t := sim.Task{Name: fmt.Sprintf("w%d", i)}
+			t.Ops = append(t.Ops, sim.Op{K: "get", S: "a"})
+			e := int64(d) + int64(r.Intn(17)-8)*c.Sched.MaxJitter
+			t.Ops = append(t.Ops, sim.Op{K: "wait", S: "a", N: 0, E: 1000 + e})
+			c.Tasks = append(c.Tasks, t)
+		}
+		t := sim.Task{Name: "m1"}
+		t.Ops = append(t.Ops, sim.Op{K: "jump", D: int64(d + 5*time.Millisecond)})
+		t.Ops = append(t.Ops, sim.Op{K: "put", S: "a", V: "x2", D: int64(time.Hour)})
+		for i := 0; i < 1+r.Intn(3); i++ {
+			t.Ops = append(t.Ops, sim.Op{K: "wait", S: "a", N: 0, E: 1000 + int64(30*time.Millisecond)})
+		}
+		t.Ops = append(t.Ops, sim.Op{K: "get", S: "a", F: true})
+		c.Tasks = append(c.Tasks, t)
+		return
+	}
 	c.Tasks = append(c.Tasks, sim.Task{Name: "m0", Ops: []sim.Op{{K: sim.Pick(r, "put", "create"), S: "a", V: "x1", D: int64(d)}}})
 	nw := 2 + r.Intn(2)
 	for i := 0; i < nw; i++ {
